@@ -216,6 +216,7 @@ func NewWorld(cfg Config) (*World, error) {
 			return w, nil
 		}
 		nd.Store.ScratchReads = cfg.ScratchReads
+		nd.Store.NilTrie = cfg.NilTrie
 		nd.Codec.Report = func(detail string) {
 			w.violate(spec.Violation{Props: spec.P("C14"), Clause: "codec", Detail: detail})
 		}
